@@ -67,21 +67,31 @@ pub fn gen_input<F: Family>(t: &mut Tape, cfg: &GenCfg) -> (Vec<u8>, &'static st
             let mut w = F::project(&p);
             mutate::respell(&mut w, t, false);
             let sites = mutate::sites(&w);
-            let n = 1 + t.weighted(&[6, 2, 1]);
             let mut out = serialize(&w).unwrap_or_else(|| enc.clone());
-            for _ in 0..n {
-                if sites.is_empty() {
-                    break;
+            if sites.is_empty() {
+                return (out, "catalogue");
+            }
+            // one to three catalogue malformations on the same packet, optionally combined with
+            // wrong framing (trailing bytes / over- or under-declared remaining length)
+            let n = 1 + t.weighted(&[5, 3, 1]);
+            let chosen: Vec<mutate::Site> = (0..n).map(|_| sites[t.pick(sites.len())].clone()).collect();
+            if t.chance(1, 4) {
+                match t.pick(3) {
+                    0 => w.trailing = (0..1 + t.pick(3)).map(|_| t.u8()).collect(),
+                    1 => w.rl_delta = 1 + t.pick(3) as i64,
+                    _ => w.rl_delta = -(1 + t.pick(3) as i64),
                 }
-                let s = &sites[t.pick(sites.len())];
-                if let Some(m) = mutate::apply(&w, s, t) {
-                    out = m.bytes;
-                    // further malformations are applied at byte level
-                    if t.flag() {
-                        break;
-                    }
-                    let _ = mutate::byte_mutate(&mut out, &enc, t);
+            }
+            if let Some((b, _names)) = mutate::apply_chain(&w, &chosen, t) {
+                out = b;
+            }
+            if w.rl_delta > 0 && t.flag() {
+                for _ in 0..w.rl_delta {
+                    out.push(t.u8());
                 }
+            }
+            if t.chance(1, 4) {
+                let _ = mutate::byte_mutate(&mut out, &enc, t);
             }
             (out, "catalogue")
         }
